@@ -63,7 +63,46 @@ def relevant_axioms(axioms, ob):
     return chosen
 
 
+def cone_of_influence(axioms, ob):
+    """Hypotheses and axioms connected to the goal through shared uninterpreted symbols (transitively).  The rest shares no
+    uninterpreted symbol with the kept part, so it is independent: dropping it changes neither unsat nor (given that the path
+    condition is satisfiable) sat.  Quantified facts about unrelated containers otherwise turn `sat` into `unknown`."""
+    if ob.expect_sat:
+        return relevant_axioms(axioms, ob), list(ob.hyps)
+
+    def syms(e):
+        return {x for x in decls(e) if not x.startswith("sort:")}
+
+    cur = syms(ob.goal)
+    pool = [(h, syms(h), "h") for h in ob.hyps] + [(a, syms(a), "a") for a in axioms]
+    kept_h, kept_a = [], []
+    changed = True
+    while changed:
+        changed = False
+        for item in list(pool):
+            e, sy, kind = item
+            if sy & cur or (not sy and kind == "h"):
+                pool.remove(item)
+                (kept_h if kind == "h" else kept_a).append(e)
+                if not sy <= cur:
+                    cur |= sy
+                    changed = True
+    return kept_a, kept_h
+
+
 def to_smt2(axioms, ob):
+    s = z3.Solver()
+    kept_a, kept_h = cone_of_influence(axioms, ob)
+    for a in kept_a:
+        s.add(a)
+    for h in kept_h:
+        s.add(h)
+    if not ob.expect_sat:
+        s.add(z3.Not(ob.goal))
+    return s.to_smt2()
+
+
+def to_smt2_full(axioms, ob):
     s = z3.Solver()
     for a in relevant_axioms(axioms, ob):
         s.add(a)
